@@ -243,7 +243,7 @@ def gen_tok(rng, defs, rel_kind):
         if paths:
             pool += [(paths[-1], 7), (rng.choice(paths), 3)]
         if strings:
-            pool += [(rng.choice(strings), 4)]
+            pool += [(rng.choice(strings), 3), (strings[-1], 2)]
         name = rng.weighted(pool) if pool and not rng.chance(0.04) else odd_symbol(rng, defs, 'none')
         k = rng.below(20)
         if k < 6:
@@ -257,7 +257,7 @@ def gen_tok(rng, defs, rel_kind):
         if strings and rng.chance(0.15):
             frags += [('s', rng.choice(strings))]
     else:
-        name = rng.choice(strings) if strings and not rng.chance(0.05) else odd_symbol(rng, defs, 'path')
+        name = (strings[-1] if rng.chance(0.4) else rng.choice(strings)) if strings and not rng.chance(0.05) else odd_symbol(rng, defs, 'path')
         pre = gen_const(rng, min_parts=1) or 'a'
         frags = [('c', pre + rng.choice(['/', '', '-'])), ('s', name)]
         if rng.chance(0.5):
@@ -343,10 +343,34 @@ def gen_defs(rng):
     # strings mostly first, so that path definitions can use them; then shuffle lightly
     if rng.chance(0.3):
         rng.shuffle(plan)
+    if rng.chance(0.3):
+        # a string symbol that CONCATENATES several references (a path symbol, if any, never first), after the paths;
+        # sometimes wrapped once more by a string with a single reference
+        plan.append('concat')
+        if rng.chance(0.4):
+            plan.append('wrap')
     counter = 0
     for kind in plan:
         counter += 1
-        if kind == 'string':
+        if kind in ('concat', 'wrap'):
+            name = 'S%d' % counter
+            strings, paths = syms_of(defs, 'string'), syms_of(defs, 'path')
+            if kind == 'wrap':
+                frags = [('c', rng.choice(['a/', 'x', '']))] if rng.chance(0.5) else []
+                frags = [f for f in frags if f[1]] + [('s', strings[-1] if strings else 'U99')]
+            else:
+                refs = [rng.choice(strings) if strings else 'U99']
+                for _ in range(rng.randint(1, 2)):
+                    refs.append(rng.choice(paths) if (paths and rng.chance(0.45)) else rng.choice(strings or paths or ['U99']))
+                frags = []
+                for k, r in enumerate(refs):
+                    if k and rng.chance(0.3):
+                        frags.append(('c', '/'))
+                    frags.append(('s', r))
+                if rng.chance(0.7):
+                    frags.append(('c', rng.choice(['/new', '/', '.x'])))
+            defs.append((name, 'string', ('plain' if rng.chance(0.7) else 'soft', frags)))
+        elif kind == 'string':
             name = 'S%d' % counter
             strings, paths = syms_of(defs, 'string'), syms_of(defs, 'path')
             s = gen_const(rng)
@@ -695,6 +719,13 @@ CORPUS = [
      'file:destination', (('none',), ('plain', [('s', 'P1'), ('c', '/x')]))),
     ([], 'file:destination', (('sym', 'U99'), ('plain', [('c', '/abs/x')]))),
     ([], 'file:destination', (('none',), ('soft', []))),  # `file "" = ..`: the empty path (was an IndexError before commit 0d7a12a)
+    # a forbidden path symbol second in a string symbol that concatenates references, used as a path component
+    ([('S1', 'string', ('soft', [])), ('P2', 'path', (('none',), ('plain', [('c', '/abs/home')]))),
+      ('S3', 'string', ('plain', [('s', 'S1'), ('s', 'P2'), ('c', '/new')]))], 'file:destination',
+     (('opt', 'RAct'), ('plain', [('s', 'S3')]))),
+    ([('S1', 'string', ('plain', [('c', 'e')])), ('P2', 'path', (('opt', 'RHdsCase'), ('plain', [('c', 'h')]))),
+      ('S3', 'string', ('plain', [('s', 'S1'), ('c', '/'), ('s', 'P2')])), ('S4', 'string', ('plain', [('c', 'x'), ('s', 'S3')]))],
+     'dir:destination', (('none',), ('plain', [('s', 'S4')]))),
     ([], 'copy:destination', (('none',), None)),
     ([], 'copy:destination', (('opt', 'RTmp'), None)),
     ([('P1', 'path', (('here',), ('plain', [('c', 'x')])))], 'contents:actual', (('none',), ('plain', [('s', 'P1'), ('c', '/y')]))),
@@ -1242,9 +1273,16 @@ def _subst_root(x, home):
     return x
 
 
+_CONCAT = lambda f: [('S1', 'string', ('soft', [])), ('P2', 'path', f),
+                     ('S3', 'string', ('plain', [('s', 'S1'), ('s', 'P2'), ('c', '/new')]))]
 _SRC = lambda n: (('none',), ('plain', [('s', n), ('c', '/src.txt')]))
 _DST = lambda n: (('none',), ('plain', [('s', n), ('c', '/MARK')]))
 E_CORPUS = [
+    # a forbidden path symbol second in a concatenating string symbol, the string used as path component of a destination
+    lambda root: _e('create', 'setup', False, _CONCAT((('here',), ('plain', [('c', '.')]))),
+                    (('opt', 'RAct'), ('plain', [('s', 'S3'), ('c', '/MARK')])), 'file:destination', False, "file %s = 'M'")(root),
+    lambda root: _e('create', 'cleanup', True, _CONCAT((('opt', 'RHdsCase'), ('plain', [('c', '.')]))),
+                    (('none',), ('plain', [('s', 'S3'), ('c', '/MARK')])), 'dir:destination', False, 'dir %s')(root),
     # source and destination through ONE symbol: home (must be VALIDATION_ERROR), absolute home via -rel-here, chain; legal act
     _e2('setup', False, [('P1', 'path', (('opt', 'RHdsCase'), ('plain', [('c', '.')])))], _SRC('P1'), _DST('P1'), 'copy', False),
     _e2('before-assert', True, [('P1', 'path', (('here',), ('plain', [('c', '.')])))], _SRC('P1'),
